@@ -3,6 +3,13 @@
 import json, os
 V = "/verif/seeded"
 WHAT = {
+ "C08-e": "Device.copy() no longer forwards length_units: every clone (also the one a Solution stores) is a 'um' device",
+ "C11-e": "the |psi|^2 returned by the kernel is cached on the solver and re-used as the next step's input (state that a saved frame does not hold)",
+ "C15-e": "DataHandler.__exit__ formats exc_value.args[0]: a message-less exception raises IndexError before the files are closed",
+ "C16-e": "Parameter.__eq__ compares keyword values by position instead of by name",
+ "C18-e": "Polygon.path memoised and never invalidated: membership after an in-place transform is answered for the old vertices",
+ "C19-e": "shape check of the vector potential compares only the number of rows: an (n, 1) array is accepted",
+ "C20-e": "azimuthal angle of the current-loop potential taken before the positions are re-centred on the loop",
  "C01-d": "J_scale without conversion to base units: the injected current is off by the prefix ratio of current and length units (mA with um)",
  "C03-d": "PARDISO back end re-wraps the CSC buffers of the scalar Laplacian as CSR: the Poisson matrix becomes the transpose",
  "C04-d": "MeshOperators caches the normalised edge directions: refreshed link variables use unit vectors instead of edge vectors",
